@@ -84,7 +84,9 @@ let layer_s = function
   | LIpv6HopByHopHeader -> "Ipv6HopByHopHeader" | LIpv6DestOptionsHeader -> "Ipv6DestOptionsHeader"
   | LIpv6RouteHeader -> "Ipv6RouteHeader" | LIpv6FragHeader -> "Ipv6FragHeader"
 let len_err_s (e : len_error) =
-  Printf.sprintf "len:%s,%s,%s,%s" (sn e.required_len) (sn e.le_len) (layer_s e.le_layer) (sn e.layer_start_offset)
+  (* the extracted module holds two LenError records (C16's lenerr of the LimitedReader comes first):
+     the fields of ExtChain.Model.len_error are required_len, le_len0, le_layer0, layer_start_offset *)
+  Printf.sprintf "len:%s,%s,%s,%s" (sn e.required_len) (sn e.le_len0) (layer_s e.le_layer0) (sn e.layer_start_offset)
 let hse_s = function
   | HLen e -> len_err_s e | HHopByHopNotAtStart -> "hbh" | HIpAuthZeroPayloadLen -> "authzero"
 let ase_s = function ALen e -> len_err_s e | AZeroPayloadLen -> "authzero"
@@ -124,6 +126,63 @@ let net_s r = match r with
   | Ok v -> "ok:" ^ sn v | Err _ -> "err:arp" | Panic -> "PANIC" | OutOfFuel -> "OOF"
 
 let b01 b = if b then "1" else "0"
+
+(* ---- arbitrary byte chains: rest as offset+length, write-back, readers ---- *)
+let restpos bs rest = Printf.sprintf "%d+%d" (List.length bs - List.length rest) (List.length rest)
+let dec6x_s bs r = match r with
+  | Ok ((e, nh), rest) -> Printf.sprintf "ok:%s:%s:%s" (exts6_s e) (sn nh) (restpos bs rest)
+  | Err e -> hse_s e | Panic -> "PANIC" | OutOfFuel -> "OOF"
+let lax6x_s bs r = match r with
+  | Ok (((e, nh), rest), err) ->
+    Printf.sprintf "%s:%s:%s:%s" (exts6_s e) (sn nh) (restpos bs rest)
+      (match err with None -> "none" | Some (x, l) -> hse_s x ^ "/" ^ layer_s l)
+  | Err () -> "ERR" | Panic -> "PANIC" | OutOfFuel -> "OOF"
+let dec4x_s bs r = match r with
+  | Ok ((e, nh), rest) -> Printf.sprintf "ok:%s:%s:%s" (exts4_s e) (sn nh) (restpos bs rest)
+  | Err e -> ase_s e | Panic -> "PANIC" | OutOfFuel -> "OOF"
+let lax4x_s bs r = match r with
+  | Ok (((e, nh), rest), err) ->
+    Printf.sprintf "%s:%s:%s:%s" (exts4_s e) (sn nh) (restpos bs rest)
+      (match err with None -> "none" | Some x -> ase_s x)
+  | Err () -> "ERR" | Panic -> "PANIC" | OutOfFuel -> "OOF"
+(* decode then write / next_header of the decoded struct *)
+let wb6_s first r = match r with
+  | Ok ((e, _), _) -> write_s (write e first) ^ "/" ^ walk_s (next_header e first)
+  | _ -> "-"
+let wb4_s first r = match r with
+  | Ok ((e, _), _) -> write_s (write4 e first) ^ "/" ^ walk_s (next_header4 e first)
+  | _ -> "-"
+let accepted (w : walk) = match w.w_stop with SNonExt | SRefilled -> true | _ -> false
+let wbspec6_s (w : walk) =
+  if accepted w then "ok:" ^ hexs (normalised w.w_chain) ^ "/ok:" ^ sn w.w_next else "-"
+let wbspec4_s (w : walk) =
+  if accepted w then "ok:" ^ hexs (normalised w.w_chain) ^ "/ok:" ^ sn w.w_next else "-"
+let dref6 r = match r with Ok ((e, _), _) -> Some e | _ -> None
+let dref4 r = match r with Ok ((e, _), _) -> Some e | _ -> None
+(* readers: std::io::Cursor (one read call delivers what is asked for) *)
+let chunk = n_of_int 65536
+let lim6 budget off = MLim (lr_new (n_of_int budget) lS_IPV6_PAYLOAD (n_of_int off) l_IPV6H)
+let lim4 budget off = MLim (lr_new (n_of_int budget) lS_IPV4_TOTAL (n_of_int off) l_IPV4H)
+let lname k = match int_of_n k with
+  | 3 -> "Ipv4Header" | 5 -> "IpAuthHeader" | 6 -> "Ipv6Header" | 7 -> "Ipv6ExtHeader" | 8 -> "Ipv6FragHeader"
+  | k -> "L" ^ string_of_int k
+let srcname k = match int_of_n k with
+  | 0 -> "Slice" | 1 -> "Ipv4HeaderTotalLen" | 2 -> "Ipv6HeaderPayloadLen" | k -> "S" ^ string_of_int k
+let qerr_s (q : 'a qres) = match q with
+  | QOk _ -> "?"
+  | QIo KEof -> "io:eof" | QIo _ -> "io:other"
+  | QLen l -> Printf.sprintf "len:%s,%s,%s,%s,%s" (sn l.le_required) (sn l.le_len) (lname l.le_layer) (sn l.le_off)
+                (srcname l.le_source)
+  | QContent CHopNotAtStart -> "hbh" | QContent CAuthZeroLen -> "authzero" | QContent _ -> "CONTENT?"
+  | QUnderflow -> "UNDERFLOW" | QBad -> "BAD" | QFuel -> "OOF"
+let q6_s dref (q : (exts6 * n) qres) pos = match q with
+  | QOk (e, nh) -> Printf.sprintf "ok:%s:%s:%s" (if Some e = dref then "=d" else exts6_s e) (sn nh) pos
+  | _ -> qerr_s q
+let q4_s dref (q : (exts4 * n) qres) pos = match q with
+  | QOk (e, nh) -> Printf.sprintf "ok:%s:%s:%s" (if Some e = dref then "=d" else exts4_s e) (sn nh) pos
+  | _ -> qerr_s q
+let rd6_s dref (q, (st : rstate)) = q6_s dref q (sn st.rs_src.src_pulled)
+let rd4_s dref (q, (st : rstate)) = q4_s dref q (sn st.rs_src.src_pulled)
 
 let run (line : string) : string =
   match Conv.split_ws line with
@@ -182,10 +241,48 @@ let run (line : string) : string =
     m ^ " | " ^ spec
   | ["d6"; first; hx] ->
     let first = n_of_s first and bs = bytes_of_hex hx in
-    Printf.sprintf "d=%s x=%s | -" (dec6_s None (from_slice first bs)) (lax6_s None (from_slice_lax first bs))
+    let d = from_slice first bs in
+    let w = ref_walk first bs in
+    let lm = lim6 (List.length bs) 40 in
+    Printf.sprintf "d=%s x=%s wb=%s r=%s l=%s | d=%s x=%s wb=%s r=%s l=%s"
+      (dec6x_s bs d) (lax6x_s bs (from_slice_lax first bs)) (wb6_s first d)
+      (rd6_s (dref6 d) (read6 false first (mk_st bs chunk N0 MPlain)))
+      (rd6_s (dref6 d) (read6 true first (mk_st bs chunk N0 lm)))
+      (dec6x_s bs (strict_of_walk w)) (lax6x_s bs (lax_of_walk w)) (wbspec6_s w)
+      (q6_s (dref6 d) (read_of_walk MPlain w) (slen (consumed w)))
+      (q6_s (dref6 d) (read_of_walk lm w) (slen (consumed w)))
+  | ["l6"; first; budget; off; hx] ->
+    let first = n_of_s first and bs = bytes_of_hex hx in
+    let budget = int_of_string budget in
+    let lm = lim6 budget (int_of_string off) in
+    let spec =
+      if budget <= List.length bs then
+        let w = ref_walk first (view bs lm) in
+        "l=" ^ q6_s None (read_of_walk lm w) (slen (consumed w))
+      else "-" in
+    Printf.sprintf "l=%s | %s" (rd6_s None (read6 true first (mk_st bs chunk N0 lm))) spec
   | ["d4"; first; hx] ->
     let first = n_of_s first and bs = bytes_of_hex hx in
-    Printf.sprintf "d=%s x=%s | -" (dec4_s None (from_slice4 first bs)) (lax4_s None (from_slice_lax4 first bs))
+    let d = from_slice4 first bs in
+    let w = ref_walk4 first bs in
+    let lm = lim4 (List.length bs) 20 in
+    Printf.sprintf "d=%s x=%s wb=%s r=%s l=%s | d=%s x=%s wb=%s r=%s l=%s"
+      (dec4x_s bs d) (lax4x_s bs (from_slice_lax4 first bs)) (wb4_s first d)
+      (rd4_s (dref4 d) (read4 false first (mk_st bs chunk N0 MPlain)))
+      (rd4_s (dref4 d) (read4 true first (mk_st bs chunk N0 lm)))
+      (dec4x_s bs (strict4_of_walk w)) (lax4x_s bs (lax4_of_walk w)) (wbspec4_s w)
+      (q4_s (dref4 d) (read4_of_walk MPlain w) (slen (consumed w)))
+      (q4_s (dref4 d) (read4_of_walk lm w) (slen (consumed w)))
+  | ["l4"; first; budget; off; hx] ->
+    let first = n_of_s first and bs = bytes_of_hex hx in
+    let budget = int_of_string budget in
+    let lm = lim4 budget (int_of_string off) in
+    let spec =
+      if budget <= List.length bs then
+        let w = ref_walk4 first (view bs lm) in
+        "l=" ^ q4_s None (read4_of_walk lm w) (slen (consumed w))
+      else "-" in
+    Printf.sprintf "l=%s | %s" (rd4_s None (read4 true first (mk_st bs chunk N0 lm))) spec
   | ["arp"; last] ->
     let (_, net) = net_try_set_next_headers NetArp (n_of_s last) in
     Printf.sprintf "net=%s | net=err:arp" (net_s net)
